@@ -22,3 +22,77 @@ package utils
 //@   panics_iff err != nil
 //@   ensures sameslice(result, b)
 //@   ensures_panic same_error: panicval() == err
+
+// ---------------------------------------------------------------------------
+// C14: conversion helpers return exactly the content of every supported input
+//@ property C14 C04 C08 C16
+//@ func NewByteReader
+//@   requires r != nil
+//@   ensures already: implies(impl(r, ByteReader), result == r)
+//@   ensures wrapped: implies(!impl(r, ByteReader), is(result, *byteReader) && as(result, *byteReader) != nil && as(result, *byteReader).Reader == r)
+
+// byte-wise reading: one byte consumed and returned, or an error and nothing consumed
+//@ func (*byteReader).ReadByte
+//@   requires r != nil && r.Reader != nil && rwf(r.Reader)
+//@   may_panic true
+//@   modifies ghost rpos
+//@   ensures one_byte: implies(result1 == nil, rpos(r.Reader) == old(rpos(r.Reader)) + 1 && result0 == rdata(r.Reader)[old(rpos(r.Reader))])
+//@   ensures none_on_error: implies(result1 != nil, rpos(r.Reader) == old(rpos(r.Reader)))
+
+//@ spec func cvBytes(m any) bool = is(m, []byte)
+//@ spec func cvVec(m any) bool = !cvBytes(m) && is(m, [][]byte)
+//@ spec func cvString(m any) bool = !cvBytes(m) && !is(m, [][]byte) && is(m, string)
+//@ spec func cvReader(m any) bool = !cvBytes(m) && !is(m, [][]byte) && !is(m, string) && impl(m, io.Reader)
+//@ func ToReader
+//@   loop 0 invariant len(readers) == rangeindex + 1 && -1 <= rangeindex && rangeindex < len(as(message, [][]byte))
+//@   ensures bytes: implies(cvBytes(message), result1 == nil && result0 != nil && !rbad(result0) && seqeq(rcontent(result0), content(as(message, []byte))))
+//@   ensures vec: implies(cvVec(message), result1 == nil && result0 != nil)
+//@   ensures str: implies(cvString(message), result1 == nil && result0 != nil && !rbad(result0) && seqeq(rcontent(result0), content(as(message, string))))
+//@   ensures reader: implies(cvReader(message), result1 == nil && result0 == message)
+//@   ensures unsupported: implies(!cvBytes(message) && !cvVec(message) && !cvString(message) && !cvReader(message), result1 != nil)
+//@ func MustToReader
+//@   panics_iff !cvBytes(message) && !cvVec(message) && !cvString(message) && !cvReader(message)
+//@   ensures nonnil: implies(!cvReader(message), result != nil)
+//@   ensures bytes: implies(cvBytes(message), !rbad(result) && seqeq(rcontent(result), content(as(message, []byte))))
+//@   ensures str: implies(cvString(message), !rbad(result) && seqeq(rcontent(result), content(as(message, string))))
+//@   ensures reader: implies(cvReader(message), result == message)
+
+// CountOf: the sum itself needs a recursive specification, which this engine does not have;
+// only the absence of run-time faults is claimed (machine arithmetic, exact).
+//@ func CountOf
+//@   mode bv
+//@   loop 0 invariant -1 <= rangeindex && rangeindex < len(buffs)
+//@   ensures_assumed range: 0 <= result && result <= 1<<48
+
+// io.Writer: "implementations must not retain p". ByteStealer does retain its first chunk, which is
+// sound only for sources that never reuse the chunk: StealBytes requires such a source.
+//@ spec func stable(w io.WriterTo) bool = is(w, *bytes.Reader) || is(w, *strings.Reader)
+//@ func (*ByteStealer).Write
+//@   requires s != nil
+//@   modifies ByteStealer.Data, elems(uint8)
+//@   ensures all: n == len(p) && err == nil
+//@   ensures content: seqcat(content(s.Data), old(content(s.Data)), old(content(p)))
+//@ func StealBytes
+//@   requires reader != nil && stable(reader) && rwf(reader)
+//@   may_panic true
+//@   modifies ghost rpos, elems(uint8), ByteStealer.Data
+//@   ensures content: implies(result1 == nil, seqeq(content(result0), old(rcontent(reader))))
+
+//@ spec func tbBytes(m any) bool = is(m, []byte)
+//@ spec func tbVec(m any) bool = !tbBytes(m) && is(m, [][]byte)
+//@ spec func tbString(m any) bool = !tbBytes(m) && !is(m, [][]byte) && is(m, string)
+//@ spec func tbBuffer(m any) bool = !tbBytes(m) && !is(m, [][]byte) && !is(m, string) && is(m, *bytes.Buffer)
+//@ spec func tbStable(m any) bool = !tbBytes(m) && !is(m, [][]byte) && !is(m, string) && !is(m, *bytes.Buffer) && (is(m, *bytes.Reader) || is(m, *strings.Reader))
+//@ spec func tbOther(m any) bool = !tbBytes(m) && !is(m, [][]byte) && !is(m, string) && !is(m, *bytes.Buffer) && !is(m, *bytes.Reader) && !is(m, *strings.Reader)
+//@ func ToBytes
+//@   loop 0 invariant -1 <= rangeindex && rangeindex < len(as(message, [][]byte))
+//@   requires implies(tbStable(message) || (tbOther(message) && impl(message, io.Reader)), rwf(message))
+//@   may_panic true
+//@   modifies ghost rpos, elems(uint8), cell(bytes.Buffer), ByteStealer.Data
+//@   ensures bytes: implies(tbBytes(message), result1 == nil && sameslice(result0, as(message, []byte)))
+//@   ensures vec: implies(tbVec(message), result1 == nil)
+//@   ensures str: implies(tbString(message), result1 == nil && seqeq(content(result0), content(as(message, string))))
+//@   ensures buffer: implies(tbBuffer(message), result1 == nil && nemitted() == 1 && evis(0, "(*bytes.Buffer).Bytes") && evarg(0, 0) == as(message, *bytes.Buffer) && sameslice(result0, evres(0, 0)))
+//@   ensures stable_reader: implies(tbStable(message) && result1 == nil, seqeq(content(result0), old(rcontent(message))))
+//@   ensures reader: implies(tbOther(message) && !impl(message, io.WriterTo) && impl(message, io.Reader), (result1 == nil) == !rbad(message) && seqeq(content(result0), old(rcontent(message))))
+//@   ensures unsupported: implies(tbOther(message) && !impl(message, io.WriterTo) && !impl(message, io.Reader), result1 != nil)
